@@ -9,6 +9,7 @@ import logging
 from typing import Optional, List
 
 import numpy
+from xml.etree import ElementTree
 
 from sarpy.io.xml.base import Serializable, Arrayable, create_text_node, \
     get_node_value
@@ -1169,6 +1170,9 @@ class TheObjectType(Serializable):
             value = StringWithComponentType(Value=value)
         elif isinstance(value, dict):
             value = StringWithComponentType(**value)
+        elif isinstance(value, ElementTree.Element):
+            value = StringWithComponentType.from_node(
+                value, getattr(self, '_xml_ns', None), ns_key=getattr(self, '_xml_ns_key', None))
 
         if not isinstance(value, StringWithComponentType):
             raise TypeError('values for Articulation must be of type str or StringWithComponentType')
@@ -1186,6 +1190,9 @@ class TheObjectType(Serializable):
             value = StringWithComponentType(Value=value)
         elif isinstance(value, dict):
             value = StringWithComponentType(**value)
+        elif isinstance(value, ElementTree.Element):
+            value = StringWithComponentType.from_node(
+                value, getattr(self, '_xml_ns', None), ns_key=getattr(self, '_xml_ns_key', None))
 
         if not isinstance(value, StringWithComponentType):
             raise TypeError('values for Configuration must be of type str or StringWithComponentType')
